@@ -74,3 +74,28 @@ Theorem C13_parse_noauto_store : forall C, auto_preds C = false ->
   forall P i, snd (parse_polish C P i) = P.
 Proof. exact parse_noauto_store. Qed.
 Print Assumptions C13_parse_noauto_store.
+
+(* ---- standard notation (model: Lang/ParseStd.v, incl. paren scan-ahead, infix
+   predicates and the drop_parens retry) -------------------------------------------- *)
+From PT Require Import Lang.ParseStd Lang.ParseStdProofs.
+
+Theorem C13_parse_std_never_other : forall C, table_ok (tab C) = true ->
+  frozen C = false \/ auto_preds C = false ->
+  forall O P i k, fst (parse_std_opts C O P i) <> OErr k.
+Proof. exact parse_std_never_other. Qed.
+Print Assumptions C13_parse_std_never_other.
+
+Theorem C13_parse_std_wf : forall C, table_ok (tab C) = true ->
+  forall O P i s P', store_ok P = true ->
+  parse_std_opts C O P i = (OK s, P') ->
+  wf_items s = true /\ closed s = true /\ nonvacuous s = true /\ norebind s = true /\
+  arity_ok P' s = true.
+Proof. exact parse_std_wf. Qed.
+Print Assumptions C13_parse_std_wf.
+
+Theorem C13_parse_std_pure : forall C O P hist i,
+  run_history_std_opts C O P (hist ++ [i]) =
+  (fst (run_history_std_opts C O P hist) ++ [fst (parse_std_opts C O (snd (run_history_std_opts C O P hist)) i)],
+   snd (parse_std_opts C O (snd (run_history_std_opts C O P hist)) i)).
+Proof. exact parse_std_pure. Qed.
+Print Assumptions C13_parse_std_pure.
